@@ -1,7 +1,7 @@
 (* C05 — Result models are as strict as the schema.  Property theorems only. *)
 From Coq Require Import List String Ascii Bool ZArith.
 From AC Require Import Base.Strs Base.Sexp Base.Json Gql.Schema Gql.Exec Py.Ann Py.Pydantic
-     Model.Names Model.Results Proofs.ResultsP Proofs.ResultsRunP Proofs.ResultsObjP Proofs.ResultsStrictP.
+     Model.Names Model.Results Proofs.ResultsP Proofs.ResultsRunP Proofs.ResultsAbsP Proofs.ResultsObjP Proofs.ResultsStrictP.
 Import ListNotations.
 Local Open Scope string_scope.
 Local Open Scope list_scope.
@@ -57,7 +57,7 @@ Print Assumptions C05_strict_partial_rejects.
 Theorem C05_object_strict :
   forall C S frs fuel g gs nested pub cn tn sels tv out pub' cs kv n,
     parse_type_def fuel C S frs pub cn tn sels false [] tv = Ok (out, pub', false) ->
-    sels_ok g true C S frs nested tn sels = true -> sels_strict gs C S frs nested tn sels = true ->
+    sels_ok g true C S frs nested tn tn sels = true -> sels_strict gs C S frs nested tn sels = true ->
     tv = (if nested then Some [tn] else None) -> table_ok cs out ->
     accepts n cs (schema_enums S) (AClass cn) (JObj kv) = true ->
     covers n cs (AClass cn) (JObj kv) = true ->
